@@ -792,13 +792,15 @@ def mark_monitored(nodes, r, prob=0.3):
 # ---------------------------------------------------------------------------
 # C09: one Test object executed several times
 
-def _facts(rec, running_none):
+def _facts(rec, running_none, marker=None):
+  """marker: the value the configuration key c09_run_marker had when THIS execute() was called"""
   def b(x):
     return '1' if x else '0'
   head = ','.join([b(rec.outcome is not None), str(rec.start_time_millis),
                    '-' if rec.end_time_millis is None else str(rec.end_time_millis),
                    b(rec.dut_id is not None and rec.dut_id != ''), b(rec.metadata.get('test_name') == 'verif_case'),
-                   b(isinstance(rec.metadata.get('config'), dict)), b(running_none)])
+                   b(isinstance(rec.metadata.get('config'), dict) and
+                     (marker is None or rec.metadata['config'].get('c09_run_marker') == marker)), b(running_none)])
   ps = []
   for p in rec.phases:
     ps.append(','.join([b(p.outcome is not None), b(p.result is not None), b(p.options is not None),
@@ -878,7 +880,13 @@ def run_history(case):
     conf.load(allow_unset_measurements=bool(case.get('allow')), _override=True)
     if case.get('plugs') is not None:
       conf.load(plug_teardown_timeout_s=0.05, _override=True)
-    for run in case['runs']:
+    try:
+      conf.declare('c09_run_marker', 'changes between the runs of one Test object', default_value='never')
+    except Exception:  # pylint: disable=broad-except
+      pass      # declared by an earlier case in this process
+    for runno, run in enumerate(case['runs']):
+      # the station's configuration changes between the runs (and after the Test object was built and configured)
+      conf.load(c09_run_marker='run%d' % runno, _override=True)
       ctx.events, ctx.body_calls, ctx.runif_calls, ctx.inst = [], {}, {}, []
       ctx.diag_log = []
       ctx.overlap, ctx.want_overlap = None, bool(run.get('overlap'))
@@ -901,7 +909,7 @@ def run_history(case):
       toks = canon_record(rec, ctx) if rec is not None else ['O:none']
       toks.append('X:ret:%d' % (1 if box['ret'] else 0))
       if rec is not None:
-        toks.append(_facts(rec, all(running_none)))
+        toks.append(_facts(rec, all(running_none), 'run%d' % runno))
       toks.append('CBSAME:%d' % (1 if all(r is rec for r in cb_recs) and len(cb_recs) == len(case.get('callbacks') or []) else 0))
       toks.append('H:%d' % (len(htf_logger.handlers) - h0))
       toks.append('S:%d' % (1 if test.state is None else 0))
